@@ -2474,7 +2474,9 @@ impl<'input, T: Input> Scanner<'input, T> {
             let tok = Token(Span::empty(sk.mark), TokenType::Key);
             self.insert_token(sk.token_number - self.tokens_parsed, tok);
             if is_implicit_flow_mapping {
-                if sk.mark.line < start_mark.line {
+                // The key of a single pair in a flow sequence is an implicit key: it is confined
+                // to one line and to 1024 characters, inside flow collections too.
+                if sk.mark.line < start_mark.line || sk.mark.index + 1024 < start_mark.index {
                     return Err(ScanError::new_str(
                         start_mark,
                         "illegal placement of ':' indicator",
